@@ -21,9 +21,9 @@ FROZEN = ("CatchingUp", "Joining", "Leaving", "Shutdown", "Suspended")
 def run(ctx):
     thorough = ctx["tier"] == "thorough"
     seeds = [ctx["seed"]] if not thorough else [ctx["seed"] + i for i in range(16)]
-    args = ["-nets", 4, "-rounds", 14, "-seq", 7, "-noquorum", 10, "-evict", 3]
+    args = ["-nets", 4, "-rounds", 14, "-seq", 7, "-noquorum", 10, "-evict", 3, "-member", 6]
     if thorough:
-        args = ["-nets", 12, "-rounds", 30, "-seq", 9, "-noquorum", 40, "-evict", 8]
+        args = ["-nets", 12, "-rounds", 30, "-seq", 9, "-noquorum", 40, "-evict", 8, "-member", 18]
     findings, diffs, seen = [], [], set()
     ncases, hist, distinct, samples = 0, {}, set(), []
     zstats = {}
@@ -84,7 +84,10 @@ def run(ctx):
                     "eager sync (empty / already known / new / truncated / corrupted / gapped events of another real node), fast-forward, join (stranger, "
                     "forged, already present) and unknown commands, with transactions in between; nodes started with every (maintenance, in-peer-set, "
                     "fast-sync) combination; runs with at most 2n/3 validators alive until the suspend limit; runs in which a validator is removed through "
-                    "consensus. Every line is compared with the model. non-trivial = request in a non-Babbling state that would change a Babbling node "
+                    "consensus; membership runs: a join (3 -> 4) or a leave (4 -> 3) goes through consensus and is learned from committed blocks, then a node "
+                    "configured with the OLD set obtains the new one through the real Node.fastForward (the joiner: 3 -> 4; a validator restarted from scratch: "
+                    "4 -> 3) or a Badger-backed validator is restarted with Bootstrap, then two nodes babble without quorum with checkSuspend after every step "
+                    "(the oracle and the model use the validator count the node reports at that heartbeat). Every line is compared with the model. non-trivial = request in a non-Babbling state that would change a Babbling node "
                     "(eager sync with events, join with a valid signature, fast-forward with an anchor block) or a Suspended sync answered with events, "
                     "or a checkSuspend that suspended a Babbling node; distinct = distinct (state, request, node digest)",
                samples=samples, histogram=dict(requests=hist, harness=zstats), traces_validated_against_impl=ncases)
